@@ -5,7 +5,8 @@
 prop="$1"; dir="$2"; tier="${3:-quick}"
 wt="/tmp/tryseed_$$"
 git -C /repo worktree add -q --detach "$wt" HEAD || exit 9
-cleanup() { git -C /repo worktree remove --force "$wt" >/dev/null 2>&1; rm -rf /tmp/verif_scratch; }
+export VERIF_SCRATCH="/tmp/verif_scratch_$$"
+cleanup() { git -C /repo worktree remove --force "$wt" >/dev/null 2>&1; rm -rf "$VERIF_SCRATCH"; }
 trap cleanup EXIT
 ( cd "$wt" && GS_ROOT="$wt" /venv/bin/python "$dir/demo.py" >/dev/null 2>&1 ); d0=$?
 git -C "$wt" apply "$dir/patch.diff" || { echo "PATCH DOES NOT APPLY"; exit 8; }
